@@ -12,8 +12,8 @@ ID = "C01"
 LEVEL = "exploration"
 FORCED_OK = False
 TECHNIQUE = "deterministic simulation: probe models record every execution inside simulated runs (exposure, sequential and scheduler-driven parallel observation, injected model failure); ordering + exactly-once invariant over the recorded history against an independent reference order; YAML/Python twin construction"
-LEVEL_TEXT = "seeded exploration over generated pipelines (all ten groups, 0..3 models each, enabled patterns, argument dictionaries, 1..5 readouts), three running modes, debug on/off, shuffled-YAML twins, parallel interleavings and failure prefixes; sampled, not exhaustive"
-LEVEL_NOTE = "trusted: the probe model and the literal canonical order in pyxsim/ref.py (written from the statement); calibration mode is exercised by the C10 check's evaluation log rather than here"
+LEVEL_TEXT = "seeded exploration over generated pipelines (all ten groups, 0..3 models each, enabled patterns, argument dictionaries, 1..5 readouts), all running modes (exposure, sequential / parallel observation, calibration under the scheduler), debug on/off, shuffled-YAML twins, parallel interleavings and failure prefixes; sampled, not exhaustive"
+LEVEL_NOTE = "trusted: the probe model and the literal canonical order in pyxsim/ref.py (written from the statement); in calibration mode the values of the calibrated arguments are whatever each evaluation applied (the C10 check decides those)"
 RULE = (
     "generated pipeline over the ten groups with probe models; run as exposure (python objects and shuffled-YAML twin, debug on/off), "
     "sequential observation or parallel observation under the seeded scheduler, optionally with a model failure injected at a drawn (step, position); "
@@ -26,10 +26,40 @@ ASSUMPTIONS = [
 ]
 COMPONENTS = {"real": ["pyxel pipeline/processor/configuration", "dask get_async", "PyYAML"], "stub": ["thread pool"]}
 BUDGET = {"quick": {"n": 480, "wall": 100, "determinism": 4}, "thorough": {"n": 12000, "wall": 1500, "determinism": 12}}
-REQUIRED_REACH = ["reconfigured_rerun", "warmup_then_observation", "variant:exposure", "variant:obs-seq", "variant:obs-par", "fault_prefix_checked", "yaml_twin", "debug_runs", "all_ten_groups"]
+REQUIRED_REACH = ["variant:calibration", "calibration_evaluations", "reconfigured_rerun", "warmup_then_observation", "variant:exposure", "variant:obs-seq", "variant:obs-par", "fault_prefix_checked", "yaml_twin", "debug_runs", "all_ten_groups"]
+
+
+def _gen_calibration(rng, tier):
+    """Calibration mode: the two probes of the calibration world inside a generated ten-group pipeline."""
+    from .. import calib
+
+    scn = calib.gen_calibration(rng, tier, fit_ranges="full", multi_readout_p=0.35, weights_p=0.0, n_targets=(1, 2), islands=(1, 1, 2))
+    extra = world.gen_pipeline(rng, max_per_group=2, group_p=rng.choice([0.5, 0.8, 1.0]), free_args=2, p_disabled=0.3)
+    pipe = {}
+    for g in ref.CANONICAL_GROUPS:
+        ms = list(extra.get(g) or [])
+        for m in ms:
+            # the subject of the calibration stays the 'cal' probe: the others must not claim its image type
+            m["arguments"].pop("image_dtype", None)
+            if "image" in (m["arguments"].get("write") or []):
+                m["arguments"]["image_dtype"] = "uint32"
+        for m in scn["pipeline"].get(g) or []:
+            ms.insert(rng.randint(0, len(ms)), m)
+        if ms:
+            pipe[g] = ms
+    scn["pipeline"] = pipe
+    scn["variant"] = "calibration"
+    scn["debug"] = False
+    scn["fault"] = None
+    scn["yaml_seed"] = 0
+    scn["mode"]["algorithm"]["generations"] = 1
+    scn["mode"]["num_evolutions"] = rng.randint(1, 2)
+    return scn
 
 
 def generate(rng, tier):
+    if rng.random() < 0.07:
+        return _gen_calibration(rng, tier)
     scn = {
         "detector": world.gen_detector(rng),
         "pipeline": world.gen_pipeline(rng, max_per_group=3, group_p=rng.choice([0.4, 0.7, 1.0]), free_args=3, p_disabled=0.3),
@@ -76,6 +106,15 @@ def generate(rng, tier):
 
 
 def shrink(scn):
+    if scn["variant"] == "calibration":
+        for g, ms in scn["pipeline"].items():
+            for i, m in enumerate(ms or []):
+                if m["name"] in ("cal", "oth"):
+                    continue
+                c = copy.deepcopy(scn)
+                del c["pipeline"][g][i]
+                yield c
+        return
     for g, ms in scn["pipeline"].items():
         for i, m in enumerate(ms or []):
             if scn.get("fault") and scn["fault"]["tag"] == m["name"]:
@@ -131,6 +170,53 @@ def _sig_order(scn):
     return ",".join(f"{g[:3]}:{m['name']}" for g, m in ref.enabled_models(scn["pipeline"]))
 
 
+def _execute_calibration(scn, forced, stats, groups_present, n_dis):
+    """Every fitness evaluation is one pipeline run: same order / exactly-once / configured-arguments rule, the calibrated
+    arguments and the per-target input arguments being whatever the evaluation applied (C10 decides those values)."""
+    from .. import calib
+
+    viol = []
+    rec = calib.run_calibration(scn, forced=forced)
+    if rec["exc"] is not None:
+        if type(rec["exc"]).__name__ == "SimDeadlock":
+            viol.append({"clause": "C01.liveness", "signature": "C01.liveness@calibration", "detail": str(rec["exc"])[:300]})
+        else:
+            viol.append({"clause": "C01.runs", "signature": f"C01.runs@calibration-raises:{type(rec['exc']).__name__}", "detail": {"exc": repr(rec["exc"])[:300], "tb": rec.get("tb", "")[-800:]}})
+    calibrated = {p["key"] for p in scn["mode"]["parameters"]} | {p["key"] for p in (scn["mode"].get("result_input_arguments") or []) if p["key"].startswith("pipeline.")}
+    base = calib.scn_for_target(scn, 0)
+    runs: dict = {}
+    for ev in rec.get("hist") or []:
+        runs.setdefault(ev["run"], []).append(ev)
+    stats["calibration_evaluations"] = len(runs)
+    for rid in sorted(runs):
+        over = {}
+        for ev in runs[rid]:
+            for key in calibrated:
+                _, g, name, _, arg = key.split(".")
+                if ev["name"] == name and arg in ev["kwargs"]:
+                    over[key] = ev["kwargs"][arg]
+        msg = expo.compare_events(expo.events_of(runs[rid]), expo.expected_events(base, overrides=over))
+        if msg:
+            viol.append({"clause": "C01.order-once", "signature": "C01.order-once@calibration", "detail": {"run": rid, "thread": runs[rid][0].get("thread"), "problem": msg}})
+            break
+    if rec["exc"] is None and not runs:
+        viol.append({"clause": "C01.order-once", "signature": "C01.missing-runs@calibration", "detail": "no pipeline evaluation was recorded"})
+    sim = rec.get("sim") or {}
+    if sim.get("contested"):
+        stats["contested_runs"] = 1
+    key = hashlib.sha256(f"{_sig_order(scn)}|calibration|{len(base['readout']['times'])}|{scn['mode']['num_islands']}".encode()).hexdigest()[:16]
+    return {
+        "violations": viol,
+        "stats": stats,
+        "nontrivial": len([g for g in groups_present if any(m.get("enabled", True) for m in scn["pipeline"][g])]) >= 2 and (n_dis > 0 or len(groups_present) < 10),
+        "key": key,
+        "digest": obs.hist_digest(rec.get("hist") or []) + ":" + (sim.get("digest") or ""),
+        "sim_time": float(sim.get("now") or 0.0),
+        "decisions": sim.get("decisions") or [],
+        "sample": {"variant": "calibration", "order": _sig_order(scn), "steps": len(base["readout"]["times"]), "islands": scn["mode"]["num_islands"], "evaluations": len(runs), "policy": scn["sched"]["policy"]},
+    }
+
+
 def execute(scn, forced=None):
     viol, stats = [], {}
     variant = scn["variant"]
@@ -140,6 +226,8 @@ def execute(scn, forced=None):
         stats["all_ten_groups"] = 1
     n_dis = sum(1 for _, m in world.all_models(scn) if not m.get("enabled", True))
     digest_parts = []
+    if variant == "calibration":
+        return _execute_calibration(scn, forced, stats, groups_present, n_dis)
     if variant == "exposure":
         a = expo.run_exposure(scn, builder="python", debug=scn["debug"])
         exp = expo.expected_events(scn)
